@@ -91,7 +91,7 @@ def syncSub (sub : FileLike) (expected : Int) (s1 : Store) : Res Unit :=
 def wrapRead (sub : FileLike) (i : Nat) (eof : Int) (tr : Int → Int → Except Err Int)
     (raw : Int → Int → Store → Res (List Byte)) (size : Int) (s : Store) : Res (List Byte) :=
   let pos := (s i).pos
-  let ts0 := if eof > 0 then min (eof - pos) size else size       -- clip only when end_of_file > 0
+  let ts0 := min (eof - pos) size                                  -- clip to the window (also an empty one)
   let ts := if ts0 < 0 then 0 else ts0
   let s1 := s.set i { s i with tsize := ts }
   match tr ts pos with
